@@ -1534,6 +1534,89 @@ func c18GenScriptCase(r *vrng, id int) *c18Case {
 	return c
 }
 
+// sessions that end with creations in flight: 1-3 sessions, each with 0-2 objects and 1-3
+// creations held at the media server (every further one on a connection the session was
+// resumed on), then every session ends by bye or expiry with a random part of ALL held
+// creations (its own and the others') completing in random windows of its close, with any
+// answer; what is still held afterwards completes outside; at the end a fresh session
+// addresses every object number
+func c18GenCloseCase(r *vrng, id int) *c18Case {
+	c := &c18Case{Id: id, Family: "closing"}
+	nsess := 1 + r.intn(3)
+	type gs struct {
+		sid, conn int
+	}
+	var ss []*gs
+	nextConn, nextObj := 0, 0
+	var pend []int
+	for i := 0; i < nsess; i++ {
+		c.Ops = append(c.Ops, c18Op{K: "hello", C: nextConn, Tok: c18ValidTok(r)})
+		ss = append(ss, &gs{sid: i + 1, conn: nextConn})
+		nextConn++
+	}
+	kinds := []string{"create-pub", "create-pub", "create-sub"}
+	for _, g := range ss {
+		for j := r.intn(3); j > 0; j-- {
+			c.Ops = append(c.Ops, c18Op{K: "cmd", C: g.conn, Cmd: pick(r, kinds)}, c18Op{K: "done", T: nextObj, R: "ok"})
+			nextObj++
+		}
+	}
+	for _, g := range ss {
+		for j := 1 + r.intn(3); j > 0; j-- {
+			c.Ops = append(c.Ops, c18Op{K: "cmd", C: g.conn, Cmd: pick(r, kinds)})
+			pend = append(pend, nextObj)
+			nextObj++
+			// the message loop of g.conn is blocked now: the session goes on elsewhere
+			c.Ops = append(c.Ops, c18Op{K: "resume", C: nextConn, Sid: g.sid})
+			g.conn = nextConn
+			nextConn++
+		}
+	}
+	order := r.intn(2)
+	for i := range ss {
+		g := ss[i]
+		if order == 1 {
+			g = ss[len(ss)-1-i]
+		}
+		var in []c18Slot
+		var rest []int
+		for _, t := range pend {
+			if r.chance(60) {
+				in = append(in, c18Slot{W: pick(r, c18Windows), T: t, R: pick(r, []string{"ok", "ok", "ok", "ok", "ok", "fail", "timeout"})})
+			} else {
+				rest = append(rest, t)
+			}
+		}
+		pend = rest
+		// the order of the schedule is the order inside a window
+		for j := len(in) - 1; j > 0; j-- {
+			k := r.intn(j + 1)
+			in[j], in[k] = in[k], in[j]
+		}
+		if r.chance(50) {
+			c.Ops = append(c.Ops, c18Op{K: "bye", C: g.conn, In: in})
+		} else {
+			if r.chance(50) {
+				c.Ops = append(c.Ops, c18Op{K: "drop", C: g.conn})
+			}
+			c.Ops = append(c.Ops, c18Op{K: "expire", Sid: g.sid, In: in})
+		}
+		if r.chance(30) && len(pend) > 0 {
+			j := r.intn(len(pend))
+			c.Ops = append(c.Ops, c18Op{K: "done", T: pend[j], R: pick(r, []string{"ok", "ok", "fail"})})
+			pend = append(pend[:j], pend[j+1:]...)
+		}
+	}
+	for _, t := range pend {
+		c.Ops = append(c.Ops, c18Op{K: "done", T: t, R: "ok"})
+	}
+	c.Ops = append(c.Ops, c18Op{K: "hello", C: nextConn, Tok: c18ValidTok(r)})
+	for t := 0; t < nextObj; t++ {
+		c.Ops = append(c.Ops, c18Op{K: "payload", C: nextConn, Id: t, P: "end"})
+	}
+	return c
+}
+
 // directed histories: the schedule "creation completes after the session was
 // closed" in its variants, deletes across sessions, loss of the media server
 func c18Directed() []*c18Case {
@@ -1698,6 +1781,8 @@ func TestVerifC18(t *testing.T) {
 			id := len(cases)
 			if i%5 < 2 {
 				cases = append(cases, c18GenTokenCase(r, id))
+			} else if i%10 == 4 {
+				cases = append(cases, c18GenCloseCase(r, id))
 			} else {
 				cases = append(cases, c18GenScriptCase(r, id))
 			}
@@ -1763,5 +1848,5 @@ func TestVerifC18(t *testing.T) {
 	if env.replay == "" {
 		c18Stress(t, env, keys, sink)
 	}
-	sink.close("directed schedules + seeded token cases (valid tokens and 30 mutation classes) + seeded command scripts of 1-3 sessions on the real ProxyServer over websockets with a gated fake media server; non-trivial = at least one accepted hello and (an object created or a hello refused); distinct = distinct observation sequences")
+	sink.close("directed schedules (incl. creations completing inside each forcible window of ProxySession.Close) + seeded sessions ending with creations in flight + seeded token cases (valid tokens and 30 mutation classes) + seeded command scripts of 1-3 sessions on the real ProxyServer over websockets with a gated fake media server; non-trivial = at least one accepted hello and (an object created or a hello refused); distinct = distinct observation sequences")
 }
